@@ -147,7 +147,7 @@ fn triage(case: &Case, errs: &[RustcError], bindings: &str, st: &mut Stats) {
         // unresolved names the user asked bindgen not to define
         if matches!(e.code.as_str(), "E0412" | "E0425" | "E0433" | "E0422" | "E0423") {
             let name = e.message.split('`').nth(1).unwrap_or("").to_string();
-            if case.blocklisted.iter().any(|b| *b == name || name.ends_with(&format!("_{b}")) || name == format!("struct_{b}")) { st.accepted_unresolved += 1; continue; }
+            if case.blocklisted.iter().any(|b| b == "*" || *b == name || name.ends_with(&format!("_{b}")) || name == format!("struct_{b}")) { st.accepted_unresolved += 1; continue; }
         }
         remaining.push(e);
     }
@@ -192,15 +192,20 @@ fn triage(case: &Case, errs: &[RustcError], bindings: &str, st: &mut Stats) {
     // option / header-feature regions (single definition: Lean `C01Regions.classify`)
     let has = |f: &str| case.flags.iter().any(|x| x == f);
     let newtype = case.flags.windows(2).any(|w| w[0] == "--default-alias-style" && w[1].starts_with("new_type"));
-    let opts: String = [has("--with-derive-partialord"), has("--with-derive-ord"), has("--with-derive-partialeq"), has("--with-derive-eq"), has("--impl-debug"), has("--impl-partialeq"), has("--explicit-padding"), newtype, has("--no-derive-copy"), has("--c-naming"), case.flags.windows(2).any(|w| w[0] == "--default-enum-style" && w[1].starts_with("newtype"))].iter().map(|b| if *b { '1' } else { '0' }).collect();
+    let opts: String = [has("--with-derive-partialord"), has("--with-derive-ord"), has("--with-derive-partialeq"), has("--with-derive-eq"), has("--impl-debug"), has("--impl-partialeq"), has("--explicit-padding"), newtype, has("--no-derive-copy"), has("--c-naming"), case.flags.windows(2).any(|w| w[0] == "--default-enum-style" && (w[1].starts_with("newtype") || w[1] == "bitfield")) || case.flags.iter().any(|f| f.starts_with("--bitfield-enum") || f.starts_with("--newtype-enum") || f.starts_with("--newtype-global-enum")),
+        case.flags.windows(2).any(|w| w[0] == "--default-enum-style" && w[1] == "moduleconsts") || case.flags.iter().any(|f| f.starts_with("--constified-enum-module")),
+        case.flags.windows(2).any(|w| w[0] == "--default-non-copy-union-style" && w[1] == "manually_drop"),
+        has("--flexarray-dst")].iter().map(|b| if *b { '1' } else { '0' }).collect();
     let h = &case.header;
     let compact: String = h.split_whitespace().collect::<Vec<_>>().join(" ");
     let empty_union = regex_like_empty(&compact, "union");
     let empty_aligned = compact.contains("aligned(") && (regex_like_empty(&compact, "struct") || regex_like_empty(&compact, "class"));
     let facts: String = [h.contains("packed") || h.contains("#pragma pack"), h.contains("aligned(") || h.contains("alignas"), empty_union, empty_aligned, h.contains(" : ") && h.chars().any(|c| c == ':'), bindings.contains("__BindgenOpaqueArray"), h.contains("__int128") || h.contains("long double"),
         case.cpp && (h.contains("namespace") || h.contains("class ") || h.contains("struct ")),
-        tokenize(h).iter().any(|t| KEYWORDS.contains(&t.as_str()) && !matches!(t.as_str(), "const" | "static" | "struct" | "enum" | "extern" | "union" | "typedef" | "virtual" | "bool" | "final" | "override" | "for" | "if" | "else" | "while" | "return" | "do" | "break" | "continue" | "true" | "false")),
-        h.contains("union ")].iter().map(|b| if *b { '1' } else { '0' }).collect();
+        tokenize(h).iter().any(|t| (KEYWORDS.contains(&t.as_str()) && !matches!(t.as_str(), "const" | "static" | "struct" | "enum" | "extern" | "union" | "typedef" | "virtual" | "bool" | "final" | "override" | "for" | "if" | "else" | "while" | "return" | "do" | "break" | "continue" | "true" | "false")) || (t.chars().next().is_some_and(|c| c.is_alphabetic() || c == '_') && (t.contains('$') || (t.ends_with('_') && t.len() > 1)))),
+        h.contains("union "),
+        compact.contains("[]") || compact.contains("[0]"),
+        dup_tag_typedef(h, &remaining)].iter().map(|b| if *b { '1' } else { '0' }).collect();
     let mut unexplained: Vec<&RustcError> = vec![];
     let mut cache: BTreeMap<String, String> = BTreeMap::new();
     for e in rest {
@@ -217,7 +222,19 @@ fn triage(case: &Case, errs: &[RustcError], bindings: &str, st: &mut Stats) {
 }
 
 /// `<kw> <name>? { }` somewhere in the whitespace-normalised header
-fn regex_like_empty(compact: &str, kw: &str) -> bool {
+fn regex_like_empty(compact0: &str, kw: &str) -> bool {
+    // drop `__attribute__((…))` so that `union __attribute__((packed)) U {}` is seen as empty
+    let mut c = String::new();
+    let mut r0 = compact0;
+    while let Some(i) = r0.find("__attribute__((") {
+        c.push_str(&r0[..i]);
+        let tail = &r0[i..];
+        let mut depth = 0; let mut end = tail.len();
+        for (k, ch) in tail.char_indices() { if ch == '(' { depth += 1; } else if ch == ')' { depth -= 1; if depth == 0 { end = k + 1; break; } } }
+        r0 = &tail[end..];
+    }
+    c.push_str(r0);
+    let compact = c.as_str();
     let mut rest = compact;
     while let Some(i) = rest.find(kw) {
         let after = &rest[i + kw.len()..];
@@ -246,8 +263,8 @@ fn panic_triage(case: &Case, msg: &str, st: &mut Stats) {
     let has = |f: &str| case.flags.iter().any(|x| x == f);
     let h = &case.header;
     if loc.contains("codegen/struct_layout.rs") {
-        let opts: String = [has("--with-derive-partialord"), has("--with-derive-ord"), has("--with-derive-partialeq"), has("--with-derive-eq"), has("--impl-debug"), has("--impl-partialeq"), has("--explicit-padding"), false, false, false, false].iter().map(|b| if *b { '1' } else { '0' }).collect();
-        let facts: String = [h.contains("packed") || h.contains("#pragma pack"), h.contains("aligned("), false, false, h.contains(" : "), false, false, false, false, false].iter().map(|b| if *b { '1' } else { '0' }).collect();
+        let opts: String = [has("--with-derive-partialord"), has("--with-derive-ord"), has("--with-derive-partialeq"), has("--with-derive-eq"), has("--impl-debug"), has("--impl-partialeq"), has("--explicit-padding"), false, false, false, false, false, false, false].iter().map(|b| if *b { '1' } else { '0' }).collect();
+        let facts: String = [h.contains("packed") || h.contains("#pragma pack"), h.contains("aligned("), false, false, h.contains(" : "), false, false, false, false, false, false, false].iter().map(|b| if *b { '1' } else { '0' }).collect();
         let ans = model_one(format!("c01 region opts={opts} facts={facts} err=layoutPanic"));
         if ans != "-" && !ans.starts_with("bad") {
             *st.known.entry(format!("{ans}: bindgen panics ({}: {msg}) on a header clang accepts; flags {:?}", loc.trim(), case.flags.iter().filter(|f| f.contains("padding")).collect::<Vec<_>>())).or_insert(0) += 1;
@@ -257,11 +274,28 @@ fn panic_triage(case: &Case, msg: &str, st: &mut Stats) {
     st.fail("oracle", &format!("bindgen-panic {}", loc.chars().filter(|c| !c.is_ascii_digit()).take(80).collect::<String>()), format!("{msg} | {loc}"), case);
 }
 
+/// the name rustc reports as defined twice is, in the header, both a tag and a typedef name
+fn dup_tag_typedef(h: &str, errs: &[&RustcError]) -> bool {
+    let toks: Vec<String> = tokenize(h).into_iter().filter(|t| !t.trim().is_empty()).collect();
+    errs.iter().filter(|e| e.code == "E0428").filter_map(|e| e.message.split('`').nth(1)).any(|d| {
+        let d = d.trim_start_matches("struct_").trim_start_matches("union_").trim_start_matches("enum_");
+        let as_tag = toks.windows(2).any(|w| matches!(w[0].as_str(), "struct" | "union" | "enum" | "class") && w[1] == d);
+        let as_typedef = toks.windows(2).any(|w| w[0] == d && w[1] == ";") && h.contains("typedef");
+        as_tag && as_typedef
+    })
+}
+
 fn err_class(e: &RustcError) -> &'static str {
     let m = e.message.as_str();
     match e.code.as_str() {
         "E0277" | "E0369" if m.contains("can't compare") || m.contains(": Eq`") || m.contains("PartialEq") || m.contains("PartialOrd") || m.contains(": Ord`") || m.contains("binary operation") => "cmp",
         "E0277" if m.contains("doesn't implement `Debug`") => "missingDebug",
+        "E0277" if m.contains("the trait bound") && (m.contains(": Hash`") || m.contains(": Default`") || m.contains(": Copy`") || m.contains(": Clone`")) => "missingTrait",
+        "E0587" => "e0587",
+        "E0223" => "e0223",
+        "E0308" => "e0308",
+        "E0392" => "e0392",
+        "E0428" => "dupName",
         "E0133" => "e0133",
         "E0054" => "e0054",
         "E0412" | "E0425" | "E0433" | "E0422" => "unresolved",
@@ -504,7 +538,7 @@ fn part_r(args: &Args, root: &Path, st: &mut Stats) {
     let headers: Vec<(PathBuf, Vec<String>)> = util::repo_headers().into_iter().filter(|(p, fl)| {
         let n = p.file_name().unwrap().to_string_lossy().to_string();
         // outside the property: Objective-C, headers needing extra files / raw lines the wrapper cannot provide, dynamic loading
-        !n.contains("objc") && !fl.iter().any(|f| f.contains("objective-c") || f == "--dynamic-loading" || f == "--wrap-static-fns" || f == "--generate-block" || f == "--field-attr" || f == "--block-extern-crate" || f == "--objc-extern-crate" || f.starts_with("--depfile") || f.contains("nightly") || f == "--emit-diagnostics")
+        !n.contains("objc") && !n.contains("field_attr") && !fl.iter().any(|f| f.contains("objective-c") || f == "--dynamic-loading" || f == "--wrap-static-fns" || f == "--generate-block" || f == "--field-attr" || f.contains("#[path") || f.starts_with("--target") || f.starts_with("-target") || f == "--block-extern-crate" || f == "--objc-extern-crate" || f.starts_with("--depfile") || f.contains("nightly") || f == "--emit-diagnostics")
     }).collect();
     let mut cases = vec![];
     let mut tries = 0;
